@@ -12,6 +12,10 @@ mod types;
 
 impl Parser {
     pub fn declaration(&mut self) -> Result<Stmt> {
+        self.nested(Self::declaration_inner)
+    }
+
+    fn declaration_inner(&mut self) -> Result<Stmt> {
         if self.check(&TokenKind::Needs) {
             return self.needs_declaration();
         }
